@@ -24,12 +24,63 @@ def _fresh_containers(v: FuncView):
     return out
 
 
-def _calls_on(v: FuncView, name: str, methods):
+class Ev:
+    """A method call on the extract: written in `view` (this function or a helper that was handed the extract), standing
+    at `at` (a node of the analysed function: the call itself or the call of the helper)."""
+
+    def __init__(self, call, view, hname, at):
+        self.call, self.view, self.hname, self.at = call, view, hname, at
+
+    @property
+    def meth(self):
+        return self.call.func.attr
+
+
+def _param_for(callee, n: ast.Call, name: str):
+    """name of the callee parameter that receives the caller's local `name` (passed as a plain name), else None"""
+    names = [x.arg for x in callee.params]
+    if callee.cls is not None and not callee.is_static and names and isinstance(n.func, ast.Attribute):
+        names = names[1:]
+    for i, a in enumerate(n.args):
+        if isinstance(a, ast.Name) and a.id == name and i < len(names):
+            return names[i]
+    for kw in n.keywords:
+        if kw.arg and isinstance(kw.value, ast.Name) and kw.value.id == name:
+            return kw.arg
+    return None
+
+
+def _helpers_given(ctx, v: FuncView, name: str):
+    """[(call node, callee view, parameter name)] for repo helpers that are handed the local object `name`"""
+    out = []
+    for n in walk_no_nested(v.fi.node):
+        if isinstance(n, ast.Call) and not (isinstance(n.func, ast.Attribute) and isinstance(n.func.value, ast.Name) and n.func.value.id == name):
+            for callee in ctx.callees(v.fi, n):
+                if callee.qualname == v.fi.qualname:
+                    continue
+                p = _param_for(callee, n, name)
+                if p is not None:
+                    out.append((n, ctx.view(callee), p))
+    return out
+
+
+def _calls_on(ctx, v: FuncView, name: str, methods, depth: int = 0, at=None) -> List[Ev]:
     out = []
     for n in walk_no_nested(v.fi.node):
         if isinstance(n, ast.Call) and isinstance(n.func, ast.Attribute) and isinstance(n.func.value, ast.Name) and n.func.value.id == name and n.func.attr in methods:
-            out.append(n)
+            out.append(Ev(n, v, name, at if at is not None else n))
+    if depth < 2:
+        for n, cv, p in _helpers_given(ctx, v, name):
+            out += _calls_on(ctx, cv, p, methods, depth + 1, at if at is not None else n)
     return out
+
+
+def _is_flag(v: FuncView, e, names) -> bool:
+    """`e` is the weightedness of the source (or of the extract, which was constructed with it)"""
+    e = v.resolve(e)
+    if is_self_attr(e, "_weighted"):
+        return True
+    return isinstance(e, ast.Call) and isinstance(e.func, ast.Attribute) and e.func.attr == "is_weighted" and isinstance(e.func.value, ast.Name) and e.func.value.id in set(names) | {"self"}
 
 
 def _weighted_branch(v: FuncView, node, names) -> Optional[bool]:
@@ -39,10 +90,7 @@ def _weighted_branch(v: FuncView, node, names) -> Optional[bool]:
     for n in walk_no_nested(v.fi.node):
         if isinstance(n, ast.If):
             for atom, _ in _atoms(n.test, True):
-                isflag = is_self_attr(atom, "_weighted") or (
-                    isinstance(atom, ast.Call) and isinstance(atom.func, ast.Attribute) and atom.func.attr == "is_weighted" and isinstance(atom.func.value, ast.Name) and atom.func.value.id in set(names) | {"self"}
-                )
-                if isflag:
+                if _is_flag(v, atom, names):
                     for want in (True, False):
                         lab = _implied_branch(n.test, atom, want)
                         if lab and v.cfg.branch_dominated(v.cfg.by_ast[id(n.test)], lab, nid):
@@ -59,7 +107,7 @@ def _arg(call: ast.Call, pos: int, kw: str):
     return None
 
 
-def _transfer_loops(v: FuncView, h: str, setter: str, getter: str):
+def _local_transfer_loops(v: FuncView, h: str, setter: str, getter: str):
     """`for X in ITER: h.<setter>(X, self.<getter>(X))` loops."""
     out = []
     for n in walk_no_nested(v.fi.node):
@@ -73,13 +121,29 @@ def _transfer_loops(v: FuncView, h: str, setter: str, getter: str):
     return out
 
 
-def check_extraction(ctx, res: Result, dotted: str):
+def _transfer_loops(ctx, v: FuncView, h: str, setter: str, getter: str, depth: int = 0):
+    """transfer loops of this function, and calls of helpers (handed the extract) that contain one: each a node of v"""
+    out = list(_local_transfer_loops(v, h, setter, getter))
+    if depth < 2:
+        for n, cv, p in _helpers_given(ctx, v, h):
+            # the helper must transfer from the same source object: it is a method called on self
+            if isinstance(n.func, ast.Attribute) and isinstance(n.func.value, ast.Name) and n.func.value.id == "self" and _transfer_loops(ctx, cv, p, setter, getter, depth + 1):
+                out.append(n)
+    return out
+
+
+def check_extraction(ctx, res: Result, dotted, _seen=None):
     v = ctx.view(dotted)
     f = v.fi.short
+    _seen = _seen if _seen is not None else set()
+    if v.fi.qualname in _seen:
+        return
+    _seen.add(v.fi.qualname)
     fresh = _fresh_containers(v)
     rets = [n for n in walk_no_nested(v.fi.node) if isinstance(n, ast.Return) and isinstance(n.value, ast.Name) and n.value.id in fresh]
+    delegated = _check_delegation(ctx, res, v, _seen)
     if not fresh or not rets:
-        if _check_delegation(ctx, res, v):
+        if delegated:
             return
         raise AnalysisError(f"{f}: no fresh container is built and returned (anchor of the must-flow rules vanished)")
     for h, ctors in fresh.items():
@@ -88,84 +152,130 @@ def check_extraction(ctx, res: Result, dotted: str):
         # (F) same weightedness
         for c in ctors:
             w = _arg(c, 1, "weighted")
-            good = w is not None and (is_self_attr(w, "_weighted") or (isinstance(w, ast.Call) and isinstance(w.func, ast.Attribute) and w.func.attr == "is_weighted" and isinstance(w.func.value, ast.Name) and w.func.value.id == "self"))
-            res.check(good, "X-FLAG", f, norm(c), "weighted", "the extract is not constructed with the source's weightedness", loc(v.fi, c))
-        adds = _calls_on(v, h, ("add_edge", "add_edges"))
+            if w is None:
+                res.violation("X-FLAG", f, norm(c), "weighted", "the extract is constructed without the source's weightedness (defaults to unweighted)", loc(v.fi, c))
+            elif _is_flag(v, w, ()):
+                res.ok("X-FLAG", f, norm(c), "weighted", loc(v.fi, c))
+            elif isinstance(v.resolve(w), ast.Constant):
+                res.violation("X-FLAG", f, norm(c), "weighted", "the extract is constructed with a constant weightedness instead of the source's", loc(v.fi, c))
+            else:
+                res.unknown("X-FLAG", f, norm(c), "weighted", f"weighted={norm(w)}: not recognised as the source's weightedness", loc(v.fi, c))
+        adds = _calls_on(ctx, v, h, ("add_edge", "add_edges"))
         if not adds:
-            res.violation("X-WEIGHT", f, f"{h}.add_edge(...)", "insert", "the extract never receives hyperedges", loc(v.fi, v.fi.node))
-        edge_loops = _transfer_loops(v, h, "set_edge_metadata", "get_edge_metadata")
-        node_loops = _transfer_loops(v, h, "set_node_metadata", "get_node_metadata")
-        for c in adds:
-            batch = c.func.attr == "add_edges"
+            if _helpers_given(ctx, v, h):
+                res.unknown("X-WEIGHT", f, f"{h}.add_edge(...)", "insert", "no insertion of hyperedges into the extract was found; it is handed to helpers", loc(v.fi, v.fi.node))
+            else:
+                res.violation("X-WEIGHT", f, f"{h}.add_edge(...)", "insert", "the extract never receives hyperedges", loc(v.fi, v.fi.node))
+        edge_loops = _transfer_loops(ctx, v, h, "set_edge_metadata", "get_edge_metadata")
+        node_loops = _transfer_loops(ctx, v, h, "set_node_metadata", "get_node_metadata")
+        for ev in adds:
+            c, cv = ev.call, ev.view
+            batch = ev.meth == "add_edges"
             # (W) weights
             warg = _arg(c, 1, "weights" if batch else "weight")
-            wb = _weighted_branch(v, c, [h])
+            wb = _weighted_branch(cv, c, [ev.hname])
+            if wb is None and cv is not v:
+                wb = _weighted_branch(v, ev.at, [h])
             if warg is None:
-                res.check(wb is False, "X-WEIGHT", f, norm(c), "weight", "hyperedges are inserted into the extract without their weights although the source may be weighted", loc(v.fi, c))
+                res.check(wb is False, "X-WEIGHT", cv.fi.short, norm(c), "weight", "hyperedges are inserted into the extract without their weights although the source may be weighted", loc(cv.fi, c))
             else:
-                k = v.kind(warg)
+                k = cv.kind(warg)
                 ek = elem_of(k) if batch else k
                 from .kinds import fits, Mismatch, strip_none
 
                 vv = fits(strip_none(ek), WEIGHT)
-                res.add("X-WEIGHT", f, norm(c), "weight", "violation" if isinstance(vv, Mismatch) else ("ok" if not isinstance(ek, _Top) else "unknown"), getattr(vv, "reason", ""), loc(v.fi, c))
+                res.add("X-WEIGHT", cv.fi.short, norm(c), "weight", "violation" if isinstance(vv, Mismatch) else ("ok" if not isinstance(ek, _Top) else "unknown"), getattr(vv, "reason", ""), loc(cv.fi, c))
             # (M) hyperedge metadata
             marg = _arg(c, 2, "metadata")
-            cid = v.cfg_id(c)
             if marg is None:
-                ids = {v.cfg.by_ast[id(l)] for l in edge_loops}
-                ok = bool(ids) and all(not v.cfg.reaches_without(cid, v.cfg_id(r), ids) for r in rets if r.value.id == h and v.cfg.reachable(cid, v.cfg_id(r)))
-                res.check(ok, "X-EMETA", f, norm(c), "metadata", "hyperedges reach the extract without their metadata on some path (no metadata argument and no following set_edge_metadata transfer loop)", loc(v.fi, c))
+                local_loops = edge_loops if cv is v else _transfer_loops(ctx, cv, ev.hname, "set_edge_metadata", "get_edge_metadata")
+                ok = _followed_by(cv, c, local_loops, ev.hname if cv is not v else h, rets if cv is v else None)
+                if not ok and cv is not v:
+                    ok = _followed_by(v, ev.at, edge_loops, h, rets)
+                res.check(ok, "X-EMETA", cv.fi.short, norm(c), "metadata", "hyperedges reach the extract without their metadata on some path (no metadata argument and no following set_edge_metadata transfer loop)", loc(cv.fi, c))
             else:
-                k = v.kind(marg)
-                res.add("X-EMETA", f, norm(c), "metadata", "ok" if (k == META or (batch and elem_of(k) == META)) else "unknown", "", loc(v.fi, c))
+                k = cv.kind(marg)
+                res.add("X-EMETA", cv.fi.short, norm(c), "metadata", "ok" if (k == META or (batch and elem_of(k) == META)) else "unknown", "", loc(cv.fi, c))
         # (S) documented node set: whole-node-set insertions take ALL nodes of the source (or the requested node list)
-        params = {a.arg for a in v.fi.params}
-        for c in _calls_on(v, h, ("add_nodes",)):
+        for ev in _calls_on(ctx, v, h, ("add_nodes",)):
+            c, cv = ev.call, ev.view
+            params = {a.arg for a in cv.fi.params}
             arg = _arg(c, 0, "node_list")
             txt = norm(arg) if arg is not None else ""
-            names = {x.id for x in ast.walk(arg) if isinstance(x, ast.Name)} if arg is not None else set()
-            ok = "self.get_nodes()" in txt or bool(names & (params - {"self"}))
-            res.check(ok, "X-NODES", f, norm(c), "all-nodes", f"the extract receives `{txt}` as its node set instead of all nodes of the source: nodes that have hyperedges, but none in the selection, are lost", loc(v.fi, c))
+            rarg = cv.resolve(arg) if arg is not None else None
+            rtxt = norm(rarg) if rarg is not None else ""
+            names = {x.id for x in ast.walk(rarg) if isinstance(x, ast.Name)} if rarg is not None else set()
+            ok = "self.get_nodes()" in rtxt or "self._adj" in rtxt or "self._node_metadata" in rtxt or bool(names & (params - {"self"}))
+            other_query = any(isinstance(x, ast.Call) and isinstance(x.func, ast.Attribute) and isinstance(x.func.value, ast.Name) and x.func.value.id == "self" and not x.func.attr.startswith("_") and x.func.attr != "get_nodes" for x in ast.walk(rarg)) if rarg is not None else False
+            bad = not ok and (f"{ev.hname}." in rtxt or "edge" in rtxt.lower() or other_query)
+            res.add("X-NODES", cv.fi.short, norm(c), "all-nodes", "ok" if ok else ("violation" if bad else "unknown"), "" if ok else f"the extract receives `{txt}` as its node set instead of all nodes of the source: nodes that have hyperedges, but none in the selection, are lost", loc(cv.fi, c))
         # (N) node metadata: every node-creating call is followed by a transfer loop over the extract's nodes (or over
         # the very collection that was added), and no node is created after the last transfer
-        creators = _calls_on(v, h, ("add_node", "add_nodes", "add_edge", "add_edges"))
+        creators = _calls_on(ctx, v, h, ("add_node", "add_nodes", "add_edge", "add_edges"))
         if not node_loops:
             # metadata may be handed over at creation time: h.add_node(n, metadata=self.get_node_metadata(n)) is not an idiom of this code base
+            if _helpers_given(ctx, v, h) or any("metadata" in [k.arg for k in ev.call.keywords] for ev in creators if ev.meth in ("add_node", "add_nodes")):
+                res.unknown("X-NMETA", f, f"for node in {h}.get_nodes(): {h}.set_node_metadata(node, self.get_node_metadata(node))", "transfer", "no node-metadata transfer loop recognised", loc(v.fi, v.fi.node))
+                continue
             res.violation("X-NMETA", f, f"for node in {h}.get_nodes(): {h}.set_node_metadata(node, self.get_node_metadata(node))", "transfer", "the nodes of the extract never receive the node metadata of the source", loc(v.fi, v.fi.node))
-        loop_ids = {v.cfg.by_ast[id(l)] for l in node_loops}
-        for c in creators:
-            cid = v.cfg_id(c)
-            if any(c in list(ast.walk(l)) for l in node_loops):
+        loop_ids = {v.cfg_id(l) for l in node_loops}
+        for ev in creators:
+            c = ev.call
+            cid = v.cfg_id(ev.at)
+            if any(ev.at in list(ast.walk(l)) for l in node_loops):
                 continue
             covered = True
             for r in rets:
                 rid = v.cfg_id(r)
-                if r.value.id == h and v.cfg.reachable(cid, rid) and v.cfg.reaches_without(cid, rid, loop_ids):
+                if r.value.id == h and v.cfg.reachable(cid, rid) and v.cfg.reaches_without(cid, rid, loop_ids - {cid}):
                     covered = False
+            if cid in loop_ids and ev.view is not v:
+                # created and transferred inside the same helper call: the helper's own order decides
+                hl = _transfer_loops(ctx, ev.view, ev.hname, "set_node_metadata", "get_node_metadata")
+                covered = covered or _followed_by(ev.view, c, hl, ev.hname, None)
             if not covered:
                 # hyperedges inserted after the transfer are fine when the selection only admits hyperedges over already
                 # present nodes: `if set(edge).issubset(set(nodes))`
-                if c.func.attr in ("add_edge", "add_edges") and _under_subset_test(v, c):
-                    res.ok("X-NMETA", f, norm(c), "subset-guarded", loc(v.fi, c))
+                if ev.meth in ("add_edge", "add_edges") and _under_subset_test(ev.view, c):
+                    res.ok("X-NMETA", ev.view.fi.short, norm(c), "subset-guarded", loc(ev.view.fi, c))
                     continue
-                res.violation("X-NMETA", f, norm(c), "after-transfer", "nodes are added to the extract after (or without) the node-metadata transfer: they keep empty metadata", loc(v.fi, c))
+                res.violation("X-NMETA", ev.view.fi.short, norm(c), "after-transfer", "nodes are added to the extract after (or without) the node-metadata transfer: they keep empty metadata", loc(ev.view.fi, c))
             else:
-                res.ok("X-NMETA", f, norm(c), "before-transfer", loc(v.fi, c))
+                res.ok("X-NMETA", ev.view.fi.short, norm(c), "before-transfer", loc(ev.view.fi, c))
 
 
-def _check_delegation(ctx, res: Result, v: FuncView) -> bool:
+def _followed_by(v: FuncView, node, loops, h: str, rets) -> bool:
+    """every path from `node` to a return of the extract (or, in a helper, to the exit) meets one of `loops`"""
+    ids = {v.cfg_id(l) for l in loops}
+    if not ids:
+        return False
+    cid = v.cfg_id(node)
+    if rets is None:
+        return not v.cfg.reaches_without(cid, v.cfg.exit, ids - {cid}) or cid in ids
+    return all(not v.cfg.reaches_without(cid, v.cfg_id(r), ids - {cid}) for r in rets if r.value.id == h and v.cfg.reachable(cid, v.cfg_id(r)))
+
+
+def _check_delegation(ctx, res: Result, v: FuncView, _seen=None) -> bool:
     """The function builds no container itself but returns `self.<other extractor>(...)`: the delegate carries the
-    must-flow obligations; here the selection handed over must be the one requested (an `up_to` selection covers
-    every order from 0 / every size from 1)."""
+    must-flow obligations (a private helper is checked right here); the selection handed over must be the one requested
+    (an `up_to` selection covers every order from 0 / every size from 1)."""
     f = v.fi.short
     dels = []
     for n in walk_no_nested(v.fi.node):
-        if isinstance(n, ast.Return) and isinstance(n.value, ast.Call) and isinstance(n.value.func, ast.Attribute) and is_self_attr(n.value.func) and n.value.func.attr in ("subhypergraph_by_orders", "subhypergraph", "get_edges"):
-            dels.append(n.value)
+        if isinstance(n, ast.Return) and isinstance(n.value, ast.Call) and isinstance(n.value.func, ast.Attribute) and is_self_attr(n.value.func):
+            if n.value.func.attr in ("subhypergraph_by_orders", "subhypergraph", "get_edges"):
+                dels.append(n.value)
+            else:
+                for callee in ctx.callees(v.fi, n.value):
+                    if callee.cls is not None and _fresh_containers(ctx.view(callee)):
+                        res.ok("X-DELEG", f, norm(n.value), "delegates", loc(v.fi, n.value))
+                        check_extraction(ctx, res, callee, _seen)
+                        dels.append(None)
     if not dels:
         return False
     for c in dels:
+        if c is None:
+            continue
         res.ok("X-DELEG", f, norm(c), "delegates", loc(v.fi, c))
         for kw in c.keywords:
             if kw.arg in ("orders", "sizes"):
@@ -182,10 +292,31 @@ def _check_delegation(ctx, res: Result, v: FuncView) -> bool:
     return True
 
 
+def _is_subset_call(x) -> bool:
+    return isinstance(x, ast.Call) and isinstance(x.func, ast.Attribute) and x.func.attr in ("issubset", "issuperset") and bool(x.args)
+
+
 def _under_subset_test(v: FuncView, node) -> bool:
-    for i in v.enclosing_all(node, (ast.If,)):
-        for x in ast.walk(i.test):
-            if isinstance(x, ast.Call) and isinstance(x.func, ast.Attribute) and x.func.attr == "issubset":
+    """`node` is reached only through one branch of a test `<set>.issubset(...)` / `.issuperset(...)` (either the
+    enclosing `if` or an earlier `if not ...: continue`); which branch is the business of X-SUBSET"""
+    nid = v.cfg_id(node)
+    for i in walk_no_nested(v.fi.node):
+        if isinstance(i, ast.If) and any(_is_subset_call(x) or (isinstance(x, ast.Compare) and len(x.ops) == 1 and isinstance(x.ops[0], (ast.LtE, ast.GtE, ast.Lt, ast.Gt)) and isinstance(v.kind(x.left), type(v.kind(x.comparators[0]))) and "SET" in repr(v.kind(x.left))) for x in ast.walk(i.test)):
+            tid = v.cfg.by_ast.get(id(i.test))
+            if tid is not None and (v.cfg.branch_dominated(tid, "T", nid) or v.cfg.branch_dominated(tid, "F", nid)):
+                return True
+    return False
+
+
+def _param_derived(v: FuncView, e, depth: int = 0) -> bool:
+    """`e` mentions a parameter of the function (other than self), possibly through single-assignment locals"""
+    params = {a.arg for a in v.fi.params} - {"self"}
+    for x in ast.walk(e):
+        if isinstance(x, ast.Name):
+            if x.id in params:
+                return True
+            r = v.resolve(x)
+            if r is not x and depth < 4 and _param_derived(v, r, depth + 1):
                 return True
     return False
 
@@ -196,14 +327,34 @@ def check_subset_orientation(ctx, res: Result, dotted: str):
     f = v.fi.short
     n_found = 0
     for n in walk_no_nested(v.fi.node):
-        if isinstance(n, ast.Call) and isinstance(n.func, ast.Attribute) and n.func.attr in ("issubset", "issuperset") and n.args:
+        if _is_subset_call(n):
             n_found += 1
-            recv_names = {x.id for x in ast.walk(n.func.value) if isinstance(x, ast.Name)}
-            arg_names = {x.id for x in ast.walk(n.args[0]) if isinstance(x, ast.Name)}
-            params = {a.arg for a in v.fi.params}
-            edge_is_recv = not (recv_names & params)  # derived from the loop variable, not from the parameter
-            nodes_is_arg = bool(arg_names & params)
-            good = (edge_is_recv and nodes_is_arg) if n.func.attr == "issubset" else (not edge_is_recv)
-            res.check(good, "X-SUBSET", f, norm(n), "orientation", "the induced sub-hypergraph keeps hyperedges that CONTAIN the node set instead of those contained in it", loc(v.fi, n))
+            recv_nodes = _param_derived(v, n.func.value)  # the requested node set comes from the parameter,
+            arg_nodes = _param_derived(v, n.args[0])  # the hyperedge from the loop over the source's hyperedges
+            if recv_nodes == arg_nodes:
+                res.unknown("X-SUBSET", f, norm(n), "orientation", "could not tell the hyperedge from the requested node set", loc(v.fi, n))
+                continue
+            # sub-hypergraph induced by the node set: hyperedge <= node set
+            good = (arg_nodes and not recv_nodes) if n.func.attr == "issubset" else (recv_nodes and not arg_nodes)
+            # the positive outcome of the test must be the one that keeps the hyperedge
+            pol = _keeps_on(v, n)
+            if pol is None:
+                res.add("X-SUBSET", f, norm(n), "orientation", "ok" if good else "violation", "" if good else "the induced sub-hypergraph keeps hyperedges that CONTAIN the node set instead of those contained in it", loc(v.fi, n))
+            else:
+                res.check(good == pol, "X-SUBSET", f, norm(n), "orientation", "the induced sub-hypergraph keeps hyperedges that CONTAIN the node set instead of those contained in it" if pol else "the induced sub-hypergraph keeps exactly the hyperedges that are NOT contained in the node set", loc(v.fi, n))
     if n_found == 0:
         raise AnalysisError(f"{f}: no issubset test (anchor of X-SUBSET vanished or idiom unrecognised)")
+
+
+def _keeps_on(v: FuncView, test_call) -> Optional[bool]:
+    """True when the insertion into the extract happens on the branch where `test_call` is true, False when on the
+    branch where it is false, None when this cannot be told."""
+    for i in walk_no_nested(v.fi.node):
+        if isinstance(i, ast.If) and any(x is test_call for x in ast.walk(i.test)):
+            tid = v.cfg.by_ast.get(id(i.test))
+            adds = [c for c in walk_no_nested(v.fi.node) if isinstance(c, ast.Call) and isinstance(c.func, ast.Attribute) and c.func.attr in ("add_edge", "add_edges", "append")]
+            for want in (True, False):
+                lab = _implied_branch(i.test, test_call, want)
+                if lab and any(v.cfg.branch_dominated(tid, lab, v.cfg_id(c)) for c in adds):
+                    return want
+    return None
